@@ -242,6 +242,60 @@ def judge_error_task(case, real, ans):
     return None
 
 
+def judge_wire(case, wcfg, real, extra, ans):
+    ok, info = in_quantifier(case)
+    if not ok:
+        return None
+    if extra["empty_sends"]:
+        return ("send() called with an EMPTY chunk while total_outbufs_len > 0: an output buffer reports unsent bytes it cannot produce (bytes lost inside the buffer layer)",
+                "0", str(extra["empty_sends"]), None)
+    if extra["stalled"] or extra["left_in_buffers"]:
+        return ("the response is never completely sent although the socket accepts everything (the connection stalls)",
+                "drained", "%d bytes left in the output buffers" % extra["left_in_buffers"], None)
+    return judge(case, info, real, ans)
+
+
+def wire_search(ctx, runner):
+    from harness import task_wire as TW
+    runs = TW.wire_runs(ctx.rng, ctx.tier)
+    results, queries = [], []
+    for tag, case, wcfg in runs:
+        real, extra = TW.run_wire(case, wcfg)
+        results.append((real, extra))
+        queries.append("parse %s %s" % ("1" if case["req"]["head"] else "0", hexb(T.wire_of(real))))
+    parsed = runner.query(queries)
+    ok = True
+    mig = {}
+    partly = 0
+    framing = {}
+    heads = set()
+    for (tag, case, wcfg), (real, extra), ans in zip(runs, results, parsed):
+        for kind, pos, n in extra["migrations"]:
+            key = kind + (" at read position > 0" if pos else "")
+            mig[key] = mig.get(key, 0) + 1
+        if extra["partly_sent_migrations"]:
+            partly += 1
+        try:
+            n, left, resps = parse_answer(ans)
+            if n == 1:
+                framing[resps[0]["fr"][0]] = framing.get(resps[0]["fr"][0], 0) + 1
+        except RuntimeError:
+            pass
+        heads.add((tag[0], wcfg["strbuf"], wcfg["overflow"], wcfg["sndbuf"], tuple(wcfg["plan"][:12]), extra["partly_sent_migrations"]))
+        v = judge_wire(case, wcfg, real, extra, ans)
+        if v is not None:
+            what, exp, obs, kf = v
+            ok = False
+            ctx.report("wire:%s:%s" % (what[:40], json.dumps(tag)[:70]), "C03 fails on the real wire through the channel's output buffers (%s): %s" % (tag, what),
+                       {"kind": "wire", "case": case, "wcfg": wcfg, "expected": exp, "observed": obs, "what": what,
+                        "migrations": extra["migrations"], "wire_hex": hexb(T.wire_of(real))[:4000], "failing_input_found": True},
+                       kf_class=kf)
+    ev = {"runs": len(runs), "runs_with_a_migration_of_a_partly_sent_buffer": partly, "migrations": mig,
+          "framing": framing, "distinct_runs": len(heads),
+          "distribution": "13 response shapes of 2-4 KB (Content-Length, chunked, close-delimited, write()+iterable, one-chunk list, seekable / non-seekable file wrapper with and without declared length, too few bytes) x 5 (STRBUF_LIMIT, outbuf_overflow, SO_SNDBUF) settings x 6 send plans (partial and zero-byte sends) + random plans"}
+    return ok, ev
+
+
 def run(ctx):
     ctx.translate({"GenTables"})
     ctx.gate()
@@ -315,6 +369,12 @@ def run(ctx):
             samples.append({"tag": list(map(str, tag)), "wire": hexb(T.wire_of(real)[:160]), "client": ans[:160]})
     ctx.oblige("search: the extracted client parser recovers status, fields and body from the bytes the REAL task wrote; nothing is left over; close/keep matches the announcement (outside open known-finding classes)", search_ok)
 
+    # search through the channel's output buffers: the REAL HTTPChannel flushes to a scripted socket that
+    # accepts only part of each send while STRBUF_LIMIT / outbuf_overflow are shrunk, so that buffers change
+    # representation while partly sent (harness/task_wire.py); same client parser, exact body bytes
+    wire_ok, wire_ev = wire_search(ctx, runner)
+    ctx.oblige("search (wire): through the real channel's output buffers with partial / zero-byte sends and buffer migrations at non-zero read positions, the client recovers exactly the response (status, fields, body bytes), nothing is lost or left over, nothing stalls", wire_ok)
+
     if not props_ok and not ctx.violations:
         ctx.report("c03-proof-broken", "Props/C03.v no longer checks (%s)" % failing,
                    {"failing_input_found": False, "broken": "Props/C03.v via %s" % failing, "log_tail": (log or "")[-1500:]})
@@ -327,11 +387,21 @@ def run(ctx):
         "samples": samples,
         "framing_distribution": dist,
         "outside_quantifier": outside,
+        "wire_search": wire_ev,
     })
 
 
 def replay(data):
     case = data["case"]
+    if data.get("kind") == "wire":
+        from harness import task_wire as TW
+        real, extra = TW.run_wire(case, data["wcfg"])
+        ctx_runner = vcommon.Runner(vcommon.build_runner("task", "ExtTask.v")[0])
+        ans = ctx_runner.query(["parse %s %s" % ("1" if case["req"]["head"] else "0", hexb(T.wire_of(real)))])[0]
+        v = judge_wire(case, data["wcfg"], real, extra, ans)
+        print("migrations now:", extra["migrations"])
+        print("wire search on the real code now:", v)
+        return 0 if v is None else 1
     real, extra = T.run_real(case)
     if data.get("kind") == "search":
         ctx_runner = vcommon.Runner(vcommon.build_runner("task", "ExtTask.v")[0])
